@@ -139,3 +139,19 @@ def fn_refs(body):
         if t['k'] in ('call', 'tailcall'):
             for a in t['args']: scan_op(a, i)
     return out
+
+
+def arm_blocks(body, sw, variant):
+    """blocks that belong to one arm of a (possibly loop-nested) switch: reachable from the arm entry without
+    re-entering the switch or another arm's entry, minus the blocks shared with the other arms (code after the match)"""
+    t = sw.target(variant)
+    if t is None:
+        return set()
+    tg = set(sw.edges.values())
+    mine = reachable_edges(body, t, avoid=[sw.b] + [x for x in tg if x != t])
+    shared = set()
+    for o in tg:
+        if o != t:
+            shared |= reachable_edges(body, o, avoid=[sw.b] + [x for x in tg if x != o])
+    # variants that share this very arm entry keep it
+    return mine - shared
